@@ -101,13 +101,21 @@ instance (nx : Nat → Int → Option Int) (h : List Ev) : Decidable (Accepts nx
   | .error c => isFalse (by intro ⟨m, h'⟩; rw [hm] at h'; cases h')
 
 /-- The "exactly once" half that safety cannot give (no occurrence is skipped or forgotten), in the form that can
-be judged at a quiescent moment: a scheduled task whose next occurrence is due (occurrence+offset ≤ now) is only
-waiting because a task on the same worker (`wk`), possibly itself, is running. Returns the ids that violate it. -/
-def dueIdle (wk : Nat → Nat) (m : Mon) : List Nat :=
+be judged at a quiescent moment: a scheduled task whose next occurrence is due (occurrence+offset ≤ now, with the
+EXACT offset: `frac id` is the sub-second part, in ms, of the offset of the task's current scheduling) is only waiting
+because a task on the same worker (`wk`), possibly itself, is running. Returns the ids that violate it. -/
+def dueIdle (wk : Nat → Nat) (frac : Nat → Int) (m : Mon) : List Nat :=
   (m.views.filter (fun p =>
     match p.2.epoch, p.2.expect with
     | some (_, off), some occ =>
-      decide (occ + off ≤ m.now) && !(m.views.any (fun q => decide (wk q.1 = wk p.1) && q.2.run.isSome))
+      decide ((occ + off) * 1000 + frac p.1 ≤ m.now * 1000) &&
+        !(m.views.any (fun q => decide (wk q.1 = wk p.1) && q.2.run.isSome))
     | _, _ => false)).map (·.1)
+
+/-- Recorded deviation `subsecond-offset-truncated` (findings/C17.txt): the scheduler keeps `Item.Offset` in whole
+seconds (`int64(Offset().Seconds())`, truncated toward zero) and tests `next + Offset ≤ now`. With a positive
+sub-second part `frac` the run may start when the clock shows exactly occurrence + truncated offset, i.e. up to
+`frac` ms before occurrence + offset. The clause is exact: anything earlier than that is a plain never-early failure. -/
+def earlyBySubsecond (off frac occ now : Int) : Bool := decide (frac > 0) && decide (occ + off = now)
 
 end Kap.C17
